@@ -533,7 +533,21 @@ def rng_obligations(index, rel, qualname, seed_param="seed"):
         params = [a.arg for a in fn.args.args + fn.args.kwonlyargs]
         has_seed = seed_name in params
         ngen = 0
+        inner = set()
         for n in ast.walk(fn):
+            if isinstance(n, ast.Attribute) and isinstance(n.value, ast.Attribute):
+                inner.add(id(n.value))
+        # names imported from numpy.random / random at module level (e.g. `from numpy.random import rand`)
+        imported = {}
+        for m in index.modules.get(rel_, ast.Module(body=[], type_ignores=[])).body:
+            if isinstance(m, ast.ImportFrom) and m.module in ("numpy.random", "random"):
+                for a in m.names:
+                    imported[a.asname or a.name] = "%s.%s" % (m.module, a.name)
+        for n in ast.walk(fn):
+            if isinstance(n, ast.Name) and n.id in imported and imported[n.id].split(".")[-1] not in ("default_rng", "Generator", "SeedSequence", "PCG64"):
+                recs.append(dict(function=qualname, instance="%s (in %s)" % (qualname, fn.name), kind="rng-global-state", text="line %d of %s: `%s` (imported from %s) uses global random state" % (n.lineno, fn.name, n.id, imported[n.id]), status="refuted", backend="effect-analysis", claim=True, ms=0.0, model=None))
+            if isinstance(n, ast.Attribute) and dotted(n) in ("np.random", "numpy.random") and id(n) not in inner:
+                recs.append(dict(function=qualname, instance="%s (in %s)" % (qualname, fn.name), kind="rng-global-state", text="line %d of %s: the module `%s` itself is bound to a name (global random state reachable through an alias)" % (n.lineno, fn.name, dotted(n)), status="refuted", backend="effect-analysis", claim=True, ms=0.0, model=None))
             if isinstance(n, ast.Attribute):
                 d = dotted(n)
                 if d and (d.startswith("np.random.") or d.startswith("numpy.random.")):
